@@ -1,7 +1,7 @@
 package oracle
 
-func (c *ctx) loaderHistory()       {}
-func (c *ctx) ref()                 {}
+func (c *ctx) loaderHistory() {}
+
 func (c *ctx) realClientVsModel()   {}
 func (c *ctx) realClientConn(i int) {}
 func (c *ctx) shutdown()            {}
